@@ -5,16 +5,20 @@
    Every byte is unique: initial byte i has value i, the j-th call writes the values
    InitMax + (j-1)*WMax + 1.. , so a misplaced, duplicated or lost write always shows.
 
-   alts: for every non-empty subset S of the *triggered* open deviations (those whose presence,
-   alone or on top of the others, changes the outcome or the observations of this very call)
-   the outcome of the design-level model with S in force:  [devs, r, wild, p].
-   `wild` = the as-built state after the call is not modelled; the harness then accepts the
-   alternative on the results alone and stops checking this behaviour.
-   amb: some alternative is observationally equal to the ideal outcome although its internal
-   state differs; the harness stops checking the behaviour there (never observed so far). *)
+   alts: see Track in MutableFile.tla: [devs, r, wild, p] per non-empty set of triggered open
+   deviations.  `wild` (of the alternative or of its p) = the as-built state / observation is not
+   modelled; the harness accepts the alternative on what is modelled and stops checking there.
+   amb: some alternative is observationally equal to the primary outcome although its internal
+   state differs; the harness stops checking the behaviour there (never generated so far).
+
+   fo (follow track): open deviations that have no repair (Follow, e.g. one pinned by an existing
+   test) stay in the code for good; to keep checking after one of them has shown, a second design
+   state d2 evolves with Follow in force at every call, and fo gives ITS outcome and alternatives.
+   The harness switches from (r, p) to fo at the first step where the code matches fo instead. *)
 EXTENDS MutableFile
 
 CONSTANTS Devs,        \* open deviations (filled in by checks/C10.py from the open findings)
+          Follow,      \* subset of Devs without a repair: the follow track keeps them in force
           InitSizes,   \* initial file sizes
           Roots,       \* initial root shapes: "pb" (single dag-pb leaf), "tree" (anything else)
           WLens,       \* lengths of written buffers
@@ -26,39 +30,44 @@ InitMax == 16
 WMax    == 4
 ASSUME \A n \in InitSizes : n <= InitMax
 ASSUME \A n \in WLens : n <= WMax
+ASSUME Follow \subseteq Devs
 
-VARIABLES f, d, hist, init
-gvars == <<f, d, hist, init>>
+VARIABLES f, d, d2, hist, init
+gvars == <<f, d, d2, hist, init>>
 
 Data(j, n) == [i \in 1..n |-> InitMax + (j - 1) * WMax + i]
 InitContent(n) == [i \in 1..n |-> i]
 
+Start(n, root) == /\ f' = [content |-> InitContent(n), cur |-> 0]
+                  /\ d' = DInit(InitContent(n), root)
+                  /\ d2' = DInit(InitContent(n), root)
+                  /\ init' = [size |-> n, root |-> root]
 GInit == /\ \E n \in InitSizes, root \in Roots :
               /\ f = [content |-> InitContent(n), cur |-> 0]
               /\ d = DInit(InitContent(n), root)
+              /\ d2 = DInit(InitContent(n), root)
               /\ init = [size |-> n, root |-> root]
          /\ hist = <<>>
 
-\* one step: ideal outcome i, design-level outcome function X(S) (S = deviations in force)
-Obs(x, S) == [r |-> x.r, wild |-> x.wild, st |-> x.st,
-              p |-> IF x.wild THEN [wild |-> TRUE] ELSE DProbes(S, x.st)]
-Visible(o) == [r |-> o.r, wild |-> o.wild, p |-> o.p]
+Pub(alts) == {[devs |-> a.devs, r |-> a.r, wild |-> a.wild, p |-> a.p] : a \in alts}
 
-Step(call, i, X(_)) ==
-    LET fixed == Obs(X({}), {})
-        More(T) == {x \in Devs \ T : Obs(X(T \cup {x}), T \cup {x}) # Obs(X(T), T)}
-        trig0 == More({})                                  \* deviations that change this call on their own
-        trig1 == trig0 \cup (IF trig0 = {} THEN {} ELSE More(trig0))      \* ... or on top of those
-        trig  == trig1 \cup (IF trig1 = trig0 THEN {} ELSE More(trig1))
-        alts  == {[devs |-> S, o |-> Obs(X(S), S)] : S \in (SUBSET trig) \ {{}}}
+Step(call, i, X(_, _)) ==
+    LET t  == Track(Devs, {}, d, X)
+        \* (same state and no unrepaired deviation triggered: the follow track coincides, skip the work)
+        t2 == IF d2 = d /\ t.trig \cap Follow = {} THEN t ELSE Track(Devs, Follow, d2, X)
     IN /\ f' = i.f
-       /\ d' = fixed.st
+       /\ d' = t.prim.st
+       /\ d2' = t2.prim.st
        /\ UNCHANGED init
        /\ hist' = Append(hist, call @@
                    [r    |-> i.r,
                     p    |-> IProbes(i.f),
-                    alts |-> {[devs |-> a.devs, r |-> a.o.r, wild |-> a.o.wild, p |-> a.o.p] : a \in alts},
-                    amb  |-> \E a \in alts : Visible(a.o) = Visible(fixed) /\ a.o.st # fixed.st])
+                    xp   |-> (~t.prim.wild /\ (t.prim.st.xp \/ t.prim.p.xp)),
+                    alts |-> Pub(t.alts),
+                    amb  |-> t.amb,
+                    fo   |-> IF Follow = {} THEN [on |-> FALSE]
+                             ELSE [on |-> TRUE, r |-> t2.prim.r, wild |-> t2.prim.wild, p |-> t2.prim.p,
+                                   alts |-> Pub(t2.alts), amb |-> t2.amb, devs |-> Follow]])
 
 Call(op, b, o, w, k) == [op |-> op, b |-> b, o |-> o, w |-> w, k |-> k]
 J == Len(hist) + 1
@@ -66,19 +75,19 @@ Size == Len(f.content)
 
 GStep ==
     \/ \E n \in WLens : LET b == Data(J, n) IN
-          LET X(S) == DWrite(S, d, b) IN Step(Call("Write", b, 0, 0, 0), IWrite(f, b), X)
+          LET X(S, dd) == DWrite(S, dd, b) IN Step(Call("Write", b, 0, 0, 0), IWrite(f, b), X)
     \/ \E n \in WLens, o \in 0..(Size + Slack) : LET b == Data(J, n) IN
-          LET X(S) == DWriteAt(S, d, b, o) IN Step(Call("WriteAt", b, o, 0, 0), IWriteAt(f, b, o), X)
+          LET X(S, dd) == DWriteAt(S, dd, b, o) IN Step(Call("WriteAt", b, o, 0, 0), IWriteAt(f, b, o), X)
     \/ \E k \in Ks :
-          LET X(S) == DRead(S, d, k) IN Step(Call("Read", <<>>, 0, 0, k), IRead(f, k), X)
+          LET X(S, dd) == DRead(S, dd, k) IN Step(Call("Read", <<>>, 0, 0, k), IRead(f, k), X)
     \/ \E o \in (0 - Size - Slack)..(Size + Slack), w \in Whences :
-          LET X(S) == DSeek(S, d, o, w) IN Step(Call("Seek", <<>>, o, w, 0), ISeek(f, o, w), X)
-    \/ LET X(S) == DSeek(S, d, 0, 3) IN Step(Call("Seek", <<>>, 0, 3, 0), ISeek(f, 0, 3), X)
+          LET X(S, dd) == DSeek(S, dd, o, w) IN Step(Call("Seek", <<>>, o, w, 0), ISeek(f, o, w), X)
+    \/ LET X(S, dd) == DSeek(S, dd, 0, 3) IN Step(Call("Seek", <<>>, 0, 3, 0), ISeek(f, 0, 3), X)
     \/ \E n \in 0..(Size + Slack) :
-          LET X(S) == DTruncate(S, d, n) IN Step(Call("Truncate", <<>>, n, 0, 0), ITruncate(f, n), X)
-    \/ LET X(S) == DSize(S, d) IN Step(Call("Size", <<>>, 0, 0, 0), ISize(f), X)
-    \/ LET X(S) == DSync(S, d) IN Step(Call("Sync", <<>>, 0, 0, 0), ISync(f), X)
-    \/ LET X(S) == DGetNode(S, d) IN Step(Call("GetNode", <<>>, 0, 0, 0), IGetNode(f), X)
+          LET X(S, dd) == DTruncate(S, dd, n) IN Step(Call("Truncate", <<>>, n, 0, 0), ITruncate(f, n), X)
+    \/ LET X(S, dd) == DSize(S, dd) IN Step(Call("Size", <<>>, 0, 0, 0), ISize(f), X)
+    \/ LET X(S, dd) == DSync(S, dd) IN Step(Call("Sync", <<>>, 0, 0, 0), ISync(f), X)
+    \/ LET X(S, dd) == DGetNode(S, dd) IN Step(Call("GetNode", <<>>, 0, 0, 0), IGetNode(f), X)
 
 GNext == Len(hist) < D /\ GStep
 GSpec == GInit /\ [][GNext]_gvars
@@ -89,10 +98,7 @@ Emit == Len(hist) # E \/ PrintT(<<"BEHAVIOUR", ToJson(Out)>>)
 Flush == /\ Len(hist) = E
          /\ PrintT(<<"BEHAVIOUR", ToJson(Out)>>)
          /\ hist' = <<>>
-         /\ \E n \in InitSizes, root \in Roots :
-              /\ f' = [content |-> InitContent(n), cur |-> 0]
-              /\ d' = DInit(InitContent(n), root)
-              /\ init' = [size |-> n, root |-> root]
+         /\ \E n \in InitSizes, root \in Roots : Start(n, root)
 GNextSim == IF Len(hist) = E THEN Flush ELSE GStep
 GSpecSim == GInit /\ [][GNextSim]_gvars
 =============================================================================
